@@ -30,7 +30,8 @@ REQUIRED_COUNTERS = {"cases_with_insert": {"quick": 3000, "thorough": 50000},
                      "cases_insert_innermost": {"quick": 300, "thorough": 5000},
                      "cycle_cases": {"quick": 50, "thorough": 500},
                      "deep_progressing_chains": {"quick": 100, "thorough": 2000},
-                     "ambiguous_both_readings": {"quick": 10, "thorough": 100}}
+                     "ambiguous_both_readings": {"quick": 10, "thorough": 100},
+                     "none_yielded_by_frame_iterators": {"quick": 300, "thorough": 3000}}
 SHARD_TIMEOUT = {"quick": 400, "thorough": 5400}
 EXHAUSTIVE = {"quick": False, "thorough": False}
 
@@ -384,8 +385,11 @@ def worker(spec):
                 return pool.pop() if pool else None
             kids = [rand_item(depth + 1, pool, styles) for _ in range(rng.randint(0, 3))]
             style = rng.choice(styles)
-            if style != "tuple" and style != "list":
+            if style == "single":
                 kids = [k for k in kids if k is not None]
+            elif style in ("iter", "iter_raises") and any(k is None for k in kids):
+                # a yields_frames iterator may yield None placeholders just like a sequence may hold them
+                res.count("none_yielded_by_frame_iterators")
             return W(style, kids)
 
         styles = ["tuple", "list", "iter", "single", "tuple", "list", "iter", "iter_raises"]
